@@ -737,4 +737,215 @@ theorem header_spec (c : Ctx) (fl : XFlags) (hfl : SecureFlags fl) (w : Writer) 
         split <;> (apply hfe; intro f hf; split at hf <;> simp at hf; subst hf; exact he.1)
 
 
+theorem writeData_spec (c : Ctx) (w : Writer) (d : List Nat) :
+    Triple (G c w) (writeData w d) (fun _ pr' => G c w pr') := by
+  unfold writeData
+  cases hcur : w.cur with
+  | none => exact triple_pure (fun _ hp => hp)
+  | some x =>
+    obtain ⟨e, name, es⟩ := x
+    simp only []
+    refine triple_ite (fun _ => ?_) (fun _ => triple_pure (fun _ hp => hp))
+    refine triple_bind (Q := fun _ pr' => G c w pr') ?_ (fun r => ?_)
+    · refine triple_sys ?_
+      intro pr hp
+      unfold G CurOK at hp ⊢
+      rw [hcur] at hp ⊢
+      simp only at hp ⊢
+      obtain ⟨h0, hn, h1, h2⟩ := hp
+      refine ⟨sem_exec h0 _ trivial, hn, sem_exec h1 _ trivial, fun hcn => ?_⟩
+      rcases h2 hcn with hd | ⟨hg, hf⟩
+      · exact Or.inl hd
+      · exact Or.inr ⟨hg, sem_exec hf _ trivial⟩
+    · split <;> exact triple_pure (fun _ hp => hp)
+
+theorem mem_mergeFix : ∀ (n : Nat) (a b : List Fixup), a.length + b.length = n → ∀ f, f ∈ mergeFix a b → f ∈ a ∨ f ∈ b := by
+  intro n
+  induction n using Nat.strongRecOn with
+  | _ n ih =>
+    intro a b hn f hf
+    cases a with
+    | nil => rw [mergeFix] at hf; exact Or.inr hf
+    | cons x a' =>
+      cases b with
+      | nil => rw [mergeFix] at hf; exact Or.inl hf; simp
+      | cons y b' =>
+        rw [mergeFix] at hf
+        split at hf
+        · simp only [List.mem_cons] at hf
+          rcases hf with rfl | hf
+          · exact Or.inl (by simp)
+          · rcases ih _ (by simp at hn ⊢; omega) a' (y :: b') rfl f hf with h | h
+            · exact Or.inl (by simp [h])
+            · exact Or.inr h
+        · simp only [List.mem_cons] at hf
+          rcases hf with rfl | hf
+          · exact Or.inr (by simp)
+          · rcases ih _ (by simp at hn ⊢; omega) (x :: a') b' rfl f hf with h | h
+            · exact Or.inl h
+            · exact Or.inr (by simp [h])
+
+theorem mem_sortFix : ∀ (n : Nat) (l : List Fixup), l.length = n → ∀ f, f ∈ sortFix l → f ∈ l := by
+  intro n
+  induction n using Nat.strongRecOn with
+  | _ n ih =>
+    intro l hn f hf
+    rw [sortFix] at hf
+    split at hf
+    · exact hf
+    · rename_i hlen
+      rcases mem_mergeFix _ _ _ rfl f hf with h | h
+      · exact List.mem_of_mem_take (ih _ (by simp only [List.length_take]; omega) _ rfl f h)
+      · exact List.mem_of_mem_drop (ih _ (by simp only [List.length_drop]; omega) _ rfl f h)
+
+
+theorem nulFree_strip {p : List Nat} (h : NulFreeL p) : NulFreeL (stripTrailingSlashes p) := by
+  intro x hx
+  apply h x
+  unfold stripTrailingSlashes at hx
+  have h1 : x ∈ p.reverse.dropWhile (· == SLASH) := List.mem_reverse.mp hx
+  exact List.mem_reverse.mp ((List.dropWhile_sublist _).subset h1)
+
+/-- One fix-up at close: clean-up, symlink check, `open(O_NOFOLLOW)`, type check, then the
+mode / time changes. -/
+theorem applyFixup_spec (c : Ctx) (fl : XFlags) (hfl : SecureFlags fl) (p : Fixup) (hp : NulFreeL p.name) :
+    Triple (fun pr => Sem c [] pr) (applyFixup fl p) (fun _ pr' => Sem c [] pr') := by
+  unfold applyFixup
+  simp only []
+  refine triple_ite (fun _ => triple_pure (fun _ h => h)) (fun _ => ?_)
+  refine triple_bind
+    (Q := fun o pr' => Sem c [] pr' ∧ ∀ q, o = some q → NameOK q ∧ Sem c q pr') ?_ (fun o => ?_)
+  · rw [if_pos hfl.1]
+    rw [clean_secure hfl]
+    cases hcl : cleanup { nodotdot := true, noabs := true } (stripTrailingSlashes p.name) with
+    | failed x => exact triple_pure (fun _ h => ⟨h, fun q hq => by simp at hq⟩)
+    | oob => exact triple_pure (fun _ h => ⟨h, fun q hq => by simp at hq⟩)
+    | ok q =>
+      have hn : NameOK q := nameOK_of_cleanup (nulFree_strip hp) hcl
+      simp only []
+      refine triple_bind (Q := fun r pr' => Sem c [] pr' ∧ (r = .ok → Sem c q pr')) ?_ (fun r => ?_)
+      · intro pr h
+        rcases hn with rfl | hg
+        · have hk := checkSymlinks_dot c { fl with unlink := false } true pr
+          exact ⟨hk _ h, fun _ => hk _ (sem_dot_of_base h)⟩
+        · obtain ⟨hkeep, hsound⟩ := checkSymlinks_spec c { fl with unlink := false } hfl.1 true q hg pr
+          refine ⟨hkeep _ h, fun hr => ⟨(hkeep _ h).inv, (hkeep _ h).wf, ?_⟩⟩
+          have := hsound hr
+          rw [h.inv.cwd] at this
+          simpa [loopTarget, initOf] using this
+      · refine triple_ite (fun hr => triple_pure (fun _ h => ⟨h.1, fun q' hq' => ?_⟩))
+          (fun _ => triple_pure (fun _ h => ⟨h.1, fun q' hq' => by simp at hq'⟩))
+        simp only [Option.some.injEq] at hq'
+        subst hq'
+        exact ⟨hn, h.2 hr⟩
+  · cases o with
+    | none => exact triple_pure (fun _ h => h.1)
+    | some name =>
+      simp only []
+      by_cases hn : NameOK name
+      rotate_left
+      · intro pr h; exact absurd (h.2 name rfl).1 hn
+      have hF := famCtx_name hn
+      refine triple_conseq (P := fun pr => Sem c name pr) (Q := fun _ pr => Sem c name pr)
+        (fun pr h => (h.2 name rfl).2) ?_ (fun _ pr h => sem_base h)
+      refine triple_of_allCalls (I := fun pr => Sem c name pr) (C := QCall name) (fun s pr hq hS => sem_exec hS s hq) ?_
+      allcalls
+      iterate 6 (all_goals (first | allcalls))
+
+
+theorem applyFixups_spec (c : Ctx) (fl : XFlags) (hfl : SecureFlags fl) : ∀ (l : List Fixup), PF l →
+    Triple (fun pr => Sem c [] pr) (applyFixups fl l) (fun _ pr' => Sem c [] pr') := by
+  intro l
+  induction l with
+  | nil => intro _; exact triple_pure (fun _ h => h)
+  | cons p r ih =>
+    intro hpf
+    unfold applyFixups
+    exact triple_bind (applyFixup_spec c fl hfl p (hpf p (by simp)))
+      (fun _ => ih (fun f hf => hpf f (by simp [hf])))
+
+theorem close_spec (c : Ctx) (fl : XFlags) (hfl : SecureFlags fl) (w : Writer) (hw : w.flags = fl)
+    (hpf : PF w.fixups) : Triple (G c w) (close w) (fun _ pr' => Sem c [] pr') := by
+  unfold close
+  refine triple_bind (finishEntry_spec c w) (fun r => ?_)
+  obtain ⟨ret, w'⟩ := r
+  refine triple_bind (Q := fun _ pr' => Sem c [] pr') ?_ (fun _ => triple_pure (fun _ h => h))
+  intro pr hp
+  obtain ⟨h0, _, hfl', hfx⟩ := hp
+  simp only at hfl' hfx
+  rw [hfl', hw, hfx]
+  exact applyFixups_spec c fl hfl _ (fun f hf => hpf f (mem_sortFix _ _ rfl f hf)) pr h0
+
+theorem extractEntry_spec (c : Ctx) (fl : XFlags) (hfl : SecureFlags fl) (w : Writer) (hw : w.flags = fl)
+    (hpf : PF w.fixups) (e : Entry) (he : EntryOK e) :
+    Triple (fun pr => Sem c [] pr) (extractEntry w e)
+      (fun r pr' => Sem c [] pr' ∧ r.2.cur = none ∧ r.2.flags = fl ∧ PF r.2.fixups) := by
+  unfold extractEntry
+  refine triple_bind (header_spec c fl hfl w hw e he hpf) (fun r1 => ?_)
+  obtain ⟨h, w1⟩ := r1
+  simp only []
+  refine triple_bind (Q := fun _ pr' => G c w1 pr' ∧ w1.flags = fl ∧ PF w1.fixups) ?_ (fun d => ?_)
+  · refine triple_ite (fun _ => ?_) (fun _ => triple_pure (fun _ hp => hp))
+    intro pr hp
+    exact ⟨writeData_spec c w1 _ pr hp.1, hp.2⟩
+  · refine triple_bind
+      (Q := fun r pr' => (Sem c [] pr' ∧ r.2.cur = none ∧ r.2.flags = w1.flags ∧ r.2.fixups = w1.fixups) ∧
+        (w1.flags = fl ∧ PF w1.fixups)) ?_ (fun r2 => ?_)
+    · intro pr hp
+      exact ⟨finishEntry_spec c w1 pr hp.1, hp.2⟩
+    · obtain ⟨f, w2⟩ := r2
+      exact triple_pure (fun pr hp => ⟨hp.1.1, hp.1.2.1, by rw [hp.1.2.2.1]; exact hp.2.1,
+        by rw [hp.1.2.2.2]; exact hp.2.2⟩)
+
+theorem extractAll_spec (c : Ctx) (fl : XFlags) (hfl : SecureFlags fl) : ∀ (es : List Entry) (w : Writer),
+    w.flags = fl → PF w.fixups → w.cur = none → (∀ e ∈ es, EntryOK e) →
+    Triple (fun pr => Sem c [] pr) (extractAll w es)
+      (fun r pr' => Sem c [] pr' ∧ r.2.cur = none ∧ r.2.flags = fl ∧ PF r.2.fixups) := by
+  intro es
+  induction es with
+  | nil => intro w hw hpf hc _; exact triple_pure (fun pr hp => ⟨hp, hc, hw, hpf⟩)
+  | cons e es ih =>
+    intro w hw hpf _ he
+    unfold extractAll
+    refine triple_bind (extractEntry_spec c fl hfl w hw hpf e (he e (by simp))) (fun r1 => ?_)
+    obtain ⟨s, w1⟩ := r1
+    simp only []
+    by_cases hq : w1.flags = fl ∧ PF w1.fixups ∧ w1.cur = none
+    · refine triple_bind (triple_conseq (fun pr hp => hp.1) (ih w1 hq.1 hq.2.1 hq.2.2 (fun e' he' => he e' (by simp [he'])))
+        (fun _ _ h => h)) (fun r2 => ?_)
+      obtain ⟨ss, w2⟩ := r2
+      exact triple_pure (fun _ hp => hp)
+    · intro pr hp; exact absurd ⟨hp.2.2.1, hp.2.2.2, hp.2.1⟩ hq
+
+
+theorem extractArchive_spec (c : Ctx) (fl : XFlags) (hfl : SecureFlags fl) (es : List Entry)
+    (he : ∀ e ∈ es, EntryOK e) :
+    Triple (fun pr => Sem c [] pr) (extractArchive fl es) (fun _ pr' => Sem c [] pr') := by
+  unfold extractArchive
+  refine triple_bind (extractAll_spec c fl hfl es { flags := fl } rfl pf_nil rfl he) (fun r => ?_)
+  obtain ⟨ss, w⟩ := r
+  simp only []
+  by_cases hq : w.flags = fl ∧ PF w.fixups ∧ w.cur = none
+  · refine triple_bind (Q := fun _ pr' => Sem c [] pr') ?_ (fun r2 => ?_)
+    · intro pr hp
+      refine close_spec c fl hfl w hq.1 hq.2.1 pr ⟨hp.1, ?_⟩
+      unfold CurOK; rw [hq.2.2]; trivial
+    · obtain ⟨s, w2⟩ := r2
+      exact triple_pure (fun _ hp => hp)
+  · intro pr hp; exact absurd ⟨hp.2.2.1, hp.2.2.2, hp.2.1⟩ hq
+
+/-! ### the process environment -/
+
+theorem exec_env (s : Sys) (pr : Proc) : (exec s pr).2.cwd = pr.cwd ∧ (exec s pr).2.umask = pr.umask := by
+  cases s <;> simp only [exec, doUnlink, fail] <;> (repeat' split) <;> first | exact ⟨rfl, rfl⟩ | simp
+
+theorem run_env {α} (m : Prog α) (pr : Proc) : (m.run pr).2.cwd = pr.cwd ∧ (m.run pr).2.umask = pr.umask := by
+  induction m generalizing pr with
+  | ret a => exact ⟨rfl, rfl⟩
+  | call s k ih =>
+    simp only [Prog.run]
+    have h1 := exec_env s pr
+    have h2 := ih (exec s pr).1 (exec s pr).2
+    exact ⟨h2.1.trans h1.1, h2.2.trans h1.2⟩
+
 end LA.Xtr
